@@ -459,7 +459,9 @@ pub fn check(id: &str, tier: &str) -> i32 {
     );
     if !total.notes.is_empty() {
         for (k, v) in &total.notes {
-            println!("NOTE: {k} (x{v})");
+            if !k.starts_with("programs handed over") {
+                println!("NOTE: {k} (x{v})");
+            }
         }
     }
     if violations > 0 { 1 } else { 0 }
@@ -494,7 +496,8 @@ pub fn write_evidence(id: &str, tier: &str, seed: u64, cfg: &CheckCfg, st: &Stat
             "max_environment_length_histogram": st.max_live_hist,
             "statements_generated": st.stmts,
             "discarded_runs_by_reason": st.discarded,
-            "pipeline_failure_notes": st.notes,
+            "programs_handed_over_with_noisy_display_names": st.notes.get("programs handed over with noisy display names").copied().unwrap_or(0),
+            "pipeline_failure_notes": st.notes.iter().filter(|(k, _)| !k.starts_with("programs handed over")).collect::<BTreeMap<_, _>>(),
             "findings_by_property_class_backend": st.classes,
             "other_property_findings_not_judged_here": st.other_findings,
             "known_findings_reported": known,
